@@ -32,6 +32,7 @@ type Config struct {
 	Cap      int                 `json:"cap,omitempty"`       // carrier capacity in frames per direction; 0 = unbounded
 	Tunnels  []TunnelSpec        `json:"tunnels,omitempty"`   // one entry per tunnel opened at start (default: one)
 	HasKeyFn bool                `json:"has_key_fn,omitempty"`
+	DrainEvery int               `json:"drain_every,omitempty"` // every n tape steps deliver everything in flight and take an accounting snapshot
 	OpenMD   map[string][]string `json:"open_md,omitempty"` // default opening metadata
 }
 
